@@ -4,7 +4,7 @@ correspondence: S2T.Model.Mail (Lean, through the driver) against the running li
   _split_mbox_messages / MBOX_FROM_PATTERN, _iter_message_parts / get_body_content /
   get_attachments (fed with the stdlib-parsed tree), parse_email_addresses,
   EmailContent.iterate_supported_attachments (extractor stubs), _read_eml_format (fake mailparser
-  result) — and, independently of the model, the ground-truth oracle of the property statement on
+  result), the Date pipeline of parse_email_message (S2T.Model.MailDate: isoOfHeader / ofTuple) — and, independently of the model, the ground-truth oracle of the property statement on
   read_eml_format_mail / read_mbox_format_mail over messages written by harness/builders/mailgen.py.
 """
 from __future__ import annotations
@@ -31,7 +31,11 @@ RULE = ("messages = stdlib-generated MIME trees (11 shapes: plain/html/alternati
         "40% of the subjects and 20% of the display names have interior runs of blanks, tabs and Unicode spaces (U+00A0, "
         "U+3000, U+2003, U+0085 ...) literally, in quoted-strings and inside encoded words; single-byte codecs: all 256 byte "
         "values through decode_header_value and get_body_content against the codec table; mboxes of 0..5 such messages, LF/CRLF, mboxrd-quoted From_ lines, "
-        "0..2 blank lines between messages; malformed stream = line soups over separator fragments, mutated MIME "
+        "0..2 blank lines between messages; Date headers: 45% of the messages carry a generated Date header — zone -0000 (30%), "
+        "+0000, RFC 5322 zone names, offsets with odd minutes up to +-23:59; optional/obsolete forms (no day name, no seconds, "
+        "one-digit day, two-digit year, comment, extra white space, folded) — and inside an mbox 40% of them repeat the local time "
+        "of an earlier message under another zone; the Date pipeline is also driven directly (canonical headers with arbitrary "
+        "digits, RFC 2047-encoded value, refused values) as one call sequence against the model; malformed stream = line soups over separator fragments, mutated MIME "
         "(attached messages, upper-case dispositions, name= only, empty payloads, unknown charsets, lost boundaries). "
         "distinct = distinct input bytes / trees / routing tuples; non-trivial = has a separator line, an attachment or "
         "a non-ASCII header/body")
@@ -42,7 +46,10 @@ ASSUMPTIONS = [
     "re: MBOX_FROM_PATTERN is modelled by the hand-written matcher isSepLine, valid for exactly the pattern/flags the "
     "generator reads from the source (theorem gen_pattern) and tied to re by the split/sep correspondence",
     "an mbox stores From_-quoted messages; ground truth for mbox bodies is the stored (quoted) text, as for every mbox reader",
-    "dates are compared as instants (the two extractors print different but equal ISO offsets). Subject, display names "
+    "dates: the mbox extractor must print the ISO 8601 text of the date-time the header denotes — same local time, offset exactly "
+    "as written, no offset for the zone -0000 (RFC 5322 3.3); the .eml extractor prints what mailparser delivers, every date "
+    "normalised to UTC: it must be the ISO text of the same instant in UTC including '+00:00' (also for -0000: third party, granted). "
+    "The truth is computed from the generated fields without the datetime/email modules. Subject, display names "
     "and bodies are compared code point by code point with what the writer put in; the only transformation granted is RFC "
     "5322 header unfolding (and RFC 2047 6.2: white space between two encoded words). EmailContent.__post_init__ strips the "
     "ENDS of subject/body_plain by design, therefore generated subjects/bodies/names carry no white space at their two ends "
@@ -95,7 +102,7 @@ def _instant(s):
     return d
 
 
-def check_content(e, t):
+def check_content(e, t, kind="eml"):
     """[(field, detail)] where an extracted EmailContent differs from the ground truth."""
     bad = []
 
@@ -110,7 +117,14 @@ def check_content(e, t):
     cmp("cc", pairs(e.to_cc), [tuple(x) for x in t["cc"]])
     cmp("bcc", pairs(e.to_bcc), [tuple(x) for x in t["bcc"]])
     cmp("reply_to", pairs(e.reply_to), [tuple(x) for x in t["reply_to"]])
-    cmp("date", _instant(e.metadata.date), _instant(t["when"]))
+    if kind == "mbox":
+        # the ISO date of the date-time the header denotes: same local time, offset exactly as written, none for -0000
+        cmp("date", e.metadata.date, t.get("date_iso") or t["when"])
+    else:
+        # mailparser normalises to UTC: the same instant, printed as the ISO 8601 text of that instant in UTC WITH its
+        # offset (a normalised time of day without an offset would denote another date-time than the header)
+        want = _instant(t["when"])
+        cmp("date", e.metadata.date, want.astimezone(dt.timezone.utc).isoformat() if want is not None else t["when"])
     cmp("message_id", e.metadata.message_id, t["message_id"])
     cmp("body_plain", e.body_plain, t["plain"].strip())
     cmp("body_html", e.body_html.strip(), t["html"].strip())
@@ -217,7 +231,7 @@ def oracle_mbox(data: bytes, truths) -> list[tuple[str, str]]:
         return [("mbox.count", f".mbox of {len(truths)} messages yields {len(res)} results")]
     out = []
     for i, (e, t) in enumerate(zip(res, truths)):
-        for f, d, g, w in check_content(e, t):
+        for f, d, g, w in check_content(e, t, "mbox"):
             out.append((_classify("mbox", f, g, w, t, data), f"mbox message {i} {f}: {d[:400]}"))
     return out
 
@@ -227,6 +241,118 @@ def _violations(found, rep, out, seen):
         if key not in seen:
             seen.add(key)
             out.append(Violation(key, what, rep))
+
+
+# ============================================================================= Date headers
+_DOW = ["Mon", "Tue", "Wed", "Thu", "Fri", "Sat", "Sun"]
+_MON = ["Jan", "Feb", "Mar", "Apr", "May", "Jun", "Jul", "Aug", "Sep", "Oct", "Nov", "Dec"]
+# RFC 5322 4.3 obsolete zone names and what they denote (minutes east of UTC)
+_ZONE_NAMES = {"UT": 0, "GMT": 0, "EST": -300, "EDT": -240, "CST": -360, "CDT": -300, "MST": -420, "MDT": -360, "PST": -480, "PDT": -420}
+_OFFSETS = [0, 0, 60, -60, 330, 345, -210, -300, 570, 765, 840, -720, -1, 1, -59, 1439, -1439]
+
+
+def _iso_truth(y, mo, d, h, mi, s, zone):
+    """ISO 8601 text of the denoted date-time, written WITHOUT the datetime module: the local fields and the offset as
+    written; no offset for the zone -0000 (RFC 5322 3.3: no information about the local zone)"""
+    out = "%04d-%02d-%02dT%02d:%02d:%02d" % (y, mo, d, h, mi, s)
+    if zone is not None:
+        out += "%s%02d:%02d" % ("-" if zone < 0 else "+", abs(zone) // 60, abs(zone) % 60)
+    return out
+
+
+def gen_date_header(rng, exotic=True, same_as=None):
+    """-> (Date header value, ISO truth).  canonical form with every kind of zone (numeric incl. odd minutes, -0000,
+    +0000, names); with `exotic` also the optional / obsolete forms of RFC 5322: no day name, no seconds, one-digit
+    day, two-digit year, comment after the zone, extra white space, a folded value."""
+    y = rng.choice([rng.randint(1970, 2037), rng.randint(1900, 2099), 2000, 2024, 1999])
+    mo = rng.randint(1, 12)
+    dim = [31, 29 if (y % 4 == 0 and (y % 100 != 0 or y % 400 == 0)) else 28, 31, 30, 31, 30, 31, 31, 30, 31, 30, 31][mo - 1]
+    d = rng.choice([1, dim, rng.randint(1, dim)])
+    h, mi, s = rng.choice([0, 23, rng.randint(0, 23)]), rng.choice([0, 59, rng.randint(0, 59)]), rng.choice([0, 59, rng.randint(0, 59)])
+    if same_as:     # the local date and time of an earlier message of the mailbox, under another zone
+        y, mo, d, h, mi, s = (int(x) for x in re.match(r"(\d+)-(\d+)-(\d+)T(\d+):(\d+):(\d+)", same_as).groups())
+    r = rng.random()
+    if r < 0.3:
+        zone, ztext = None, "-0000"
+    elif r < 0.45:
+        zone, ztext = 0, "+0000"
+    elif r < 0.6 and exotic:
+        ztext = rng.choice(sorted(_ZONE_NAMES))
+        zone = _ZONE_NAMES[ztext]
+    else:
+        zone = rng.choice(_OFFSETS + [rng.randint(-14 * 60, 14 * 60)])
+        ztext = "%s%02d%02d" % ("-" if zone < 0 else "+", abs(zone) // 60, abs(zone) % 60)
+        if zone == 0:
+            ztext = "+0000"
+    import calendar
+    dow = _DOW[calendar.weekday(y, mo, d)]
+    day, year, sec, lead = "%02d" % d, "%04d" % y, ":%02d" % s, dow + ", "
+    sp = [" "] * 5
+    tail = ""
+    if exotic:
+        k = rng.randrange(9)
+        if k == 0:
+            lead = ""
+        elif k == 1:
+            sec, s = "", 0
+        elif k == 2:
+            day = str(d)
+        elif k == 3 and 1969 <= y <= 2068:
+            year = "%02d" % (y % 100)
+        elif k == 4:
+            tail = " (" + rng.choice(["UTC", "CET", "local time", "+0100"]) + ")"
+        elif k == 5:
+            sp[rng.randrange(5)] = rng.choice(["  ", "\t", "   "])
+        elif k == 6:
+            sp[rng.randrange(1, 5)] = rng.choice(["\n ", "\n\t", "\n  "])
+    hdr = lead + day + sp[0] + _MON[mo - 1] + sp[1] + year + sp[2] + "%02d:%02d" % (h, mi) + sec + sp[3] + ztext + tail
+    return hdr, _iso_truth(y, mo, d, h, mi, s, zone)
+
+
+def _redate(rng, raw: bytes, t, start=0, exotic=True, same_as=None):
+    """rewrite the Date header of the message written at raw[start:] (ground truth follows); -> (raw, end position)"""
+    if t["notes"].get("shape") == "repertoire":     # its truth object is shared between the .eml and the mbox copy
+        return raw, start
+    old = b"Date: " + email.utils.format_datetime(dt.datetime.fromisoformat(t["when"])).encode("ascii")
+    i = raw.find(old, start)
+    if i < 0 or (i and raw[i - 1:i] != b"\n"):
+        return raw, start
+    hdr, iso = gen_date_header(rng, exotic, same_as)
+    new = b"Date: " + hdr.encode("ascii")
+    if t["notes"].get("crlf") or raw[i + len(old): i + len(old) + 2] == b"\r\n":
+        new = new.replace(b"\n", b"\r\n")
+    t["date_iso"] = iso
+    t["when"] = iso
+    t["notes"]["date"] = hdr
+    return raw[:i] + new + raw[i + len(old):], i + len(new)
+
+
+_CANON = re.compile(r"[A-Z][a-z]{2}, (\d\d) ([A-Z][a-z]{2}) (\d{4}) (\d\d):(\d\d):(\d\d) ([+-])(\d\d)(\d\d)\Z")
+
+
+def _ref_canonical_date(hdr):
+    """ISO truth of a VALID canonical RFC 5322 date-time (year >= 1900, real calendar day, zone below 24 h with
+    minutes below 60), else None — written without the datetime / email modules"""
+    m = _CANON.match(hdr)
+    if not m or m.group(2) not in _MON:
+        return None
+    d, mo, y, h, mi, s = int(m.group(1)), _MON.index(m.group(2)) + 1, int(m.group(3)), int(m.group(4)), int(m.group(5)), int(m.group(6))
+    zh, zm = int(m.group(8)), int(m.group(9))
+    dim = [31, 29 if (y % 4 == 0 and (y % 100 != 0 or y % 400 == 0)) else 28, 31, 30, 31, 30, 31, 31, 30, 31, 30, 31][mo - 1]
+    if not (1900 <= y and 1 <= d <= dim and h < 24 and mi < 60 and s < 60 and zh < 24 and zm < 60):
+        return None
+    zone = None if (m.group(7) == "-" and zh == zm == 0) else (zh * 60 + zm) * (-1 if m.group(7) == "-" else 1)
+    return _iso_truth(y, mo, d, h, mi, s, zone)
+
+
+def _date_witness(hdr, iso):
+    raw = ("From: a@b.c\nTo: x@y.z\nSubject: s\nDate: " + hdr + "\nMessage-ID: <m@x>\n\nbody\n").encode("ascii")
+    t = {"subject": "s", "from_": ("", "a@b.c"), "to": [("", "x@y.z")], "cc": [], "bcc": [], "reply_to": [], "when": iso, "date_iso": iso,
+         "message_id": "<m@x>", "plain": "body", "html": "", "attachments": [], "notes": {"shape": "date-witness", "date": hdr}}
+    return b"From a@b.c Mon Jan  1 10:00:00 2024\n" + raw + b"\n", t
+
+
+_ISO_SHAPE = re.compile(r"\d{4}-\d\d-\d\dT\d\d:\d\d:\d\d([+-]\d\d:\d\d)?\Z")
 
 
 # ============================================================================= model correspondence
@@ -720,6 +846,67 @@ def _corr_eml_mapping(ctx, broken):
                 broken.append(Broken("correspondence", "c16.eml", f"mailparser result={rq!r:.600} impl={impl!r:.400} model={o!r:.400}", case={"kind": "eml-map"}))
 
 
+_DATE_FIXED = ["Fri, 05 Jan 2024 10:00:00 -0000", "Fri, 05 Jan 2024 10:00:00 +0000", "Fri, 05 Jan 2024 10:00:00 GMT",
+               "Fri, 05 Jan 2024 10:00:00 -0330", "Fri, 5 Jan 2024 10:00:00 +0545", "Sat, 06 Jan 2024 23:59:59 -0000",
+               "Thu, 29 Feb 2024 23:59:59 -0000", "Fri, 30 Feb 2024 10:00:00 +0000", "Fri, 05 Jan 2024 24:00:00 +0000",
+               "Fri, 05 Jan 2024 10:00:00 +2400", "Fri, 05 Jan 2024 10:00:00 -2359", "Fri, 05 Jan 2024 10:00:00 +0075",
+               "Fri, 05 Jan 2024 10:00:60 +0000", "Fri, 00 Jan 2024 10:00:00 +0000", "Wed, 01 Jan 0069 01:02:03 +0100",
+               "Sun, 01 Jan 0068 01:02:03 -0000", "5 Jan 2024 10:00 EST", "Fri, 05 Jan 2024 10:00:00 -0000 (UTC)",
+               "Fri, 05 Jan 2024 10:00:00 XYZ", "Fri, 05 Jan 2024 10:00:00", "not a date", "Fri, 05 Jan 2024 10:00:00 -0000 ",
+               " Fri, 05 Jan 2024 10:00:00 -0000", "=?utf-8?q?Fri=2C_05_Jan_2024_10=3A00=3A00_-0000?="]
+
+
+def _corr_date(ctx, broken):
+    """the Date pipeline of the running parse_email_message against S2T.MailDate: `isoOfHeader` on canonical headers
+    (the whole pipeline in the model), `ofTuple` on every header (the stdlib tokenizer's tuple being the input)"""
+    M, _ = _lib()
+    rng = ctx.rng
+    hdrs = list(_DATE_FIXED)
+    for _ in range(ctx.n(600, 8000)):
+        hdrs.append(gen_date_header(rng, exotic=rng.random() < 0.5)[0])
+    for _ in range(ctx.n(150, 2000)):      # canonical shape, arbitrary digits: out-of-range fields and zones
+        hdrs.append("%s, %02d %s %04d %02d:%02d:%02d %s%02d%02d" % (
+            rng.choice(_DOW), rng.choice([0, 1, 28, 29, 30, 31, 32, rng.randint(0, 99)]), rng.choice(_MON),
+            rng.choice([0, 68, 69, 99, 100, 1900, 2023, 2024, 2100, 9999, rng.randint(0, 9999)]), rng.choice([0, 23, 24, rng.randint(0, 99)]),
+            rng.choice([0, 59, 60, rng.randint(0, 99)]), rng.choice([0, 59, 60, 61, rng.randint(0, 99)]), rng.choice("+-"),
+            rng.choice([0, 0, 14, 23, 24, rng.randint(0, 99)]), rng.choice([0, 0, 30, 59, 60, 99, rng.randint(0, 99)])))
+    reqs, impls = [], []
+    for hdr in hdrs:
+        msg = email.message_from_bytes(("From: a@b.c\nDate: " + hdr + "\n\nx\n").encode("ascii"))
+        try:
+            got = M.parse_email_message(msg).metadata.date
+        except ValueError:
+            got = "RAISED ValueError"
+        except Exception as exc:
+            got = "RAISED " + type(exc).__name__
+        value = M.decode_header_value(msg.get("Date"))
+        tup = email.utils._parsedate_tz(value)
+        reqs.append({"op": "c16.date", "hdr": hdr})
+        impls.append(("isoOfHeader", hdr, got))
+        if tup is None:
+            ctx.count("date/tokenizer-refuses")
+            if got != "RAISED ValueError":
+                broken.append(Broken("correspondence", "c16.date", f"Date: {hdr!r}: the stdlib refuses the value, impl={got!r}",
+                                     case={"kind": "date", "hdr": hdr}))
+        else:
+            reqs.append({"op": "c16.datetuple", "f": [max(0, int(x)) for x in tup[:6]], "tz": tup[9]})
+            impls.append(("ofTuple", hdr, got))
+    outs = ctx.drive(reqs)
+    bad = 0
+    for (what, hdr, got), o in zip(impls, outs):
+        if o.get("noncanonical"):
+            ctx.count("date/noncanonical")
+            continue
+        ctx.case(("date", what, hdr), nontrivial=True)
+        model = _txt(o["iso"]) if "iso" in o else "RAISED ValueError" if "err" in o else repr(o)
+        ctx.count(f"date/{what}/" + ("raises" if "err" in o else "naive" if len(model) == 19 else "aware"))
+        if model != got:
+            bad += 1
+            if bad <= 6:
+                broken.append(Broken("correspondence", "c16.date", f"{what}: Date: {hdr!r} impl={got!r} model={model!r} {o.get('err', '')}",
+                                     case={"kind": "date", "hdr": hdr}))
+
+
 # ============================================================================= run.py interface
 def _streams(ctx, n_msg, n_mbox):
     rng = ctx.rng
@@ -740,7 +927,21 @@ def _streams(ctx, n_msg, n_mbox):
     for _ in range(n_mbox):
         crlf = rng.random() < 0.4
         mboxes.append((crlf,) + mailgen.gen_mbox(rng, rng.choice([0, 1, 1, 2, 3, 5]), crlf=crlf))
-    return singles, mboxes
+    # Date headers: 45% of the messages get another Date header (every kind of zone: -0000, +0000, names, odd minutes;
+    # optional / obsolete forms, folded) with its own ground truth
+    singles = [(_redate(rng, raw, t)[0], t) if rng.random() < 0.45 else (raw, t) for raw, t in singles]
+    redated = []
+    for crlf, data, truths in mboxes:
+        pos = 0
+        prev = None
+        for t in truths:
+            if rng.random() < 0.45:
+                data, pos = _redate(rng, data, t, pos, same_as=prev if rng.random() < 0.4 else None)
+                prev = t.get("date_iso")
+            else:
+                pos = max(pos, data.find(b"Message-ID: " + t["message_id"].encode("ascii", "replace"), pos))
+        redated.append((crlf, data, truths))
+    return singles, redated
 
 
 def _truth_pass(ctx, singles, mboxes, out, seen):
@@ -785,6 +986,8 @@ def correspondence(ctx):
     # 4b. text steps: strip / unfolding / Subject pipeline, single-byte codecs over all 256 byte values
     _corr_text(ctx, broken)
     _corr_decode(ctx, broken)
+    # 4c. the Date pipeline
+    _corr_date(ctx, broken)
     # 5. ground truth (the property statement itself) on both extractors
     seen = set()
     _truth_pass(ctx, singles, mboxes, violations, seen)
@@ -863,6 +1066,13 @@ def search(ctx, broken):
             if got != want:
                 _violations([("mbox.split", f"_split_mbox_messages({data!r:.200}) = {got!r:.300}, by the separator rule {want!r:.300}")],
                             {"kind": "split", "data": c["data"]}, out, seen)
+    for b in broken:
+        c = b.case or {}
+        if c.get("kind") == "date":
+            iso = _ref_canonical_date(c["hdr"])
+            if iso is not None:     # a valid canonical RFC 5322 date: its ground truth is known without the model
+                data, t = _date_witness(c["hdr"], iso)
+                _violations(oracle_mbox(data, [t]), {"kind": "mbox", "data": _l1(data), "truths": [_truth_json(t)]}, out, seen)
     singles, mboxes = _streams(ctx, ctx.n(300, 3000), ctx.n(150, 1500))
     # boundaries by the separator rule, on well-formed and on arbitrary line sequences
     for data in [d for _, d, _ in mboxes] + [_line_soup(ctx.rng, ctx.rng.randint(0, 9)) for _ in range(ctx.n(1500, 20000))]:
